@@ -89,6 +89,10 @@ func Call(
 	if err != nil {
 		return nil, err
 	}
+	if obj == nil {
+		// The name is known but the code that assigns it did not run
+		return nil, fmt.Errorf("object is not a function (got: no value for %q)", functionName)
+	}
 	fn, ok := obj.(*object.Function)
 	if !ok {
 		return nil, fmt.Errorf("object is not a function (got: %s)", obj.Type())
